@@ -156,6 +156,7 @@ type Report struct {
 	Mismatches   []Mismatch     `json:"mismatches"`
 	Samples      []interface{}  `json:"samples"`
 	ActionCounts map[string]int `json:"action_counts"`
+	ConcRuns     int            `json:"conc_runs"`
 }
 
 // ---------------------------------------------------------------- world
